@@ -151,7 +151,19 @@ class C09(Prop):
                                    "client_close": client_close, "server_close": server_close, "end": "eof", "seg": "whole",
                                    "naddrs": 2, "tls": tls, "proxy": proxy, "deflate": deflate}
         from harness.runner import Enumeration
-        return [Enumeration("fixed_battery_x_deflate_tls_proxy", battery, exhaustive=True)]
+
+        def outages():
+            # the documented long-lived iterator, persist(), over a long outage: more than a thousand consecutive attempts
+            # that fail in the transport (cannot connect / dropped before the reply / dropped after Ready), real client
+            # over the simulated transport - none of them may come out of the iterator as an exception
+            for outcome in ("connect_fail", "drop_before_ready", "drop_after_ready"):
+                for (lo, hi) in ((5, 30), (0, 0)):
+                    n = 1100
+                    yield {"persist_outage": {"min_wait": lo, "max_wait": hi, "outcomes": [outcome] * n, "us": [0.75] * n,
+                                              "actions": None, "exit_at": None, "poll": 5, "ping_rate": 30,
+                                              "ping_timeout": None, "driver": "real", "default_event": False}}
+        return [Enumeration("fixed_battery_x_deflate_tls_proxy", battery, exhaustive=True),
+                Enumeration("transport_failures_through_persist_over_a_long_outage", outages, exhaustive=True)]
 
     # ------------------------------------------------------------------
     def judge(self, tr, what, fault_before_connected):
@@ -218,6 +230,17 @@ class C09(Prop):
         return None
 
     def run_case(self, case):
+        if "persist_outage" in case:
+            from props import c16
+            inner = case["persist_outage"]
+            labels = {"through_persist:" + inner["outcomes"][0]}
+            res = c16.PROP.run_case(inner)
+            # only what this property says: no exception out of the iterator, no hang (back-off arithmetic and the
+            # grammar of persist() are C16's business)
+            if not res.ok and res.signature in ("escaped_exception", "hang", "no_progress", "persist_ended_by_itself"):
+                return failed(res.signature, "persist() over %d consecutive attempts ending in %s: %s" % (
+                    len(inner["outcomes"]), inner["outcomes"][0], res.detail), labels, True)
+            return held(labels, True)
         labels = set()
         sub = []
         base = simnet.run_scenario(base_scenario(case))
